@@ -92,6 +92,78 @@ def main():
                 w5 = refs.binomial_total_steps(n, ram)
                 if fwd[cfg.key()] != w5:
                     add(["C05"], f"{cfg!r}: {fwd[cfg.key()]} steps, optimum {w5}")
+    # ---- published helpers and planner scans (screening only)
+    if os.environ.get("BATTERY_DEEP"):
+        ms = common.repo_mod("multistage")
+        mxm = common.repo_mod("mixed")
+        for n in range(1, 31):
+            for s_ in range(1 if n > 1 else 0, n + 2):
+                try:
+                    g = ms.optimal_steps_binomial(n, s_)
+                except Exception as e:  # noqa: BLE001
+                    g = repr(e)
+                w = refs.binomial_total_steps(n, max(s_, 1)) if n > 1 else 1
+                if g != w:
+                    add(["C05"], f"optimal_steps_binomial({n},{s_})={g} != {w}")
+                try:
+                    g = mxm.optimal_steps_mixed(n, s_)
+                except Exception as e:  # noqa: BLE001
+                    g = repr(e)
+                w = refs.mixed_total_steps(n, max(s_, 1)) if n > 1 else 1
+                if g != w:
+                    add(["C06"], f"optimal_steps_mixed({n},{s_})={g} != {w}")
+        from vf.props_opt import scan_n_advance
+        bad, _ = scan_n_advance(NG=70, SG=70, NL=400, SL=3)
+        for b in (bad or [])[:3]:
+            add(["C05", "C13"], f"n_advance anomaly {b}")
+        try:
+            pm = common.repo_mod("hrevolve_sequences.periodic_disk_revolve")
+            for cm in range(1, 40):
+                for cv in D.COSTS_ALL[:20]:
+                    g = int(pm.mxrr_close_formula(cm, cv[0], cv[3], cv[2]))
+                    if g != refs.periodic_period(cm, cv):
+                        add(["C19"], f"period({cm},{cv})={g}")
+                        break
+        except Exception as e:  # noqa: BLE001
+            add(["C19"], f"period function raised {e!r}")
+        extra = []
+        deep2 = bool(os.environ.get("BATTERY_DEEP2"))
+        for n in (range(9, 19) if deep2 else (9, 12, 17)):
+            for ram in ((1, 2, 3, 4) if deep2 else (1, 2, 3)):
+                for cv in (D.COSTS_QUICK if deep2 else
+                           (D.COSTS_ALL[0], D.COSTS_ALL[5], D.COSTS_ALL[6],
+                            D.COSTS_ALL[11], D.COSTS_ALL[16], D.COSTS_ALL[18])):
+                    for c in ("Revolve", "DiskRevolve", "PeriodicDiskRevolve"):
+                        extra.append(D.Config(c, (ram,) + cv, n))
+                    for disk in ((0, 1, 2, 3) if deep2 else (1, 2)):
+                        extra.append(D.Config("HRevolve", (ram, disk) + cv, n))
+        from fractions import Fraction as F
+        rr2 = {}
+        for cfg in extra:
+            run = D.drive(cfg)
+            if run.machine is None:
+                add(["C17"], f"{cfg!r}: construction {run.construct_exc}")
+                continue
+            for f in run.all_failures()[:1]:
+                add(f.props, f"{cfg!r}: [{f.code}] {f.msg}")
+            M = run.machine
+            cv = D.costs_of(cfg)
+            c = sum(F(a) * b for a, b in zip(cv, (M.fwd_steps, M.rev_steps,
+                                                  M.disk_writes, M.disk_loads)))
+            ram = cfg.params[0]
+            disk = cfg.params[1] if cfg.cls == "HRevolve" else 0
+            key = (ram, disk, cv)
+            if key not in rr2:
+                rr2[key] = refs.RevolveRefs(18, ram, disk, cv)
+            w = {"Revolve": rr2[key].revolve, "DiskRevolve": rr2[key].disk_revolve,
+                 "HRevolve": rr2[key].hrevolve}.get(cfg.cls)
+            if w is not None and c != w(cfg.N):
+                add(["C07"], f"{cfg!r}: cost {c}, optimum {w(cfg.N)}")
+            if cfg.cls == "PeriodicDiskRevolve":
+                code, msg, _, _ = __import__("vf.props_struct", fromlist=["x"]) \
+                    .c19_eval(cfg, refs.periodic_period(ram, cv))
+                if code:
+                    add(["C19"], f"{cfg!r}: [{code}] {msg}")
     # ---- structure
     from vf import props_struct as PS
     for n in (4, 7, 10, 13):
